@@ -25,7 +25,7 @@ RULE = (
 BUDGET = {"quick": 6000, "thorough": 200000}
 TIME_CAP = {"quick": 90, "thorough": 1700}
 ANCHORS = ["_write_node", "tostring", "write", "_pretty_print", "SVG.parse", "Rect.reify", "_RoundShape.reify", "Matrix.inverse"]
-REQUIRED_MONITORS = ["well-formed", "shape-list", "geometry", "paint", "second-generation", "file-output"]
+REQUIRED_MONITORS = ["well-formed", "shape-list", "geometry", "paint", "second-generation", "file-output", "source-unchanged"]
 STRATA = ["parsed-reified", "parsed-lazy", "built", "built-viewbox"]
 
 
@@ -73,9 +73,9 @@ def gen_built(R, viewbox):
     def paint():
         p = {}
         if R.random() < 0.6:
-            p["fill"] = R.choice(["red", "#00f", "none", "#12ab3480", "rgb(10,200,30)"])
+            p["fill"] = R.choice(["red", "#00f", "none", "#12ab3480", "rgb(10,200,30)", "#65432100"])
         if R.random() < 0.6:
-            p["stroke"] = R.choice(["blue", "#123456", "none", "#fa08"])
+            p["stroke"] = R.choice(["blue", "#123456", "none", "#fa08", "rgba(5,6,7,0)"])
         if R.random() < 0.5:
             p["stroke_width"] = R.choice([2.0, 0.5, 3.25, 0.0])
         return p
@@ -413,6 +413,17 @@ def run_case(S, case, ctx):
         text = write_out(S, src, how)
     except Exception as e:
         ctx.violation("write-raises/%s/%s" % (type(e).__name__, DM_where(e)), "%s of the %s raised %r" % (how, origin, e), monitor="well-formed")
+        return
+    # writing is an observation: the source tree must come out of it unchanged
+    ctx.mon("source-unchanged")
+    try:
+        after = describe(S, src)
+    except Exception as e:
+        after = None
+    if after is None or compare_lists(S, ctx, want, after, "source-after-write", feature, "source-unchanged", "", quiet=True) is not None or any(
+            a["t"] != b["t"] for a, b in zip(want, after)):
+        ctx.violation("write-mutates-the-source-tree/%s" % feature.split("/")[0], "after %s the source tree differs from what it was before (transforms %s -> %s); %s" % (
+            how, [a["t"] for a in want][:3], [b["t"] for b in (after or [])][:3], origin), monitor="source-unchanged")
         return
     try:
         ET.fromstring(text)
